@@ -67,6 +67,9 @@ for d in sorted(glob.glob(os.path.join(root, "seeded", "C*-*")) + glob.glob(os.p
     seen = {c for c, _ in checks1}
     checks = checks1 + [(c, e) for c, e in checks0 if c not in seen]
     first_missed = [c for c, e in checks0 if e == "0" and (c, "1") in checks1]
+    # second matrix run with VERIF_SEED=1 (tools/seedmatrix.sh 3 1)
+    fin1 = os.path.join(d, "final-s1.log")
+    checks_s1 = re.findall(r"=== (C\d+) on mutant [^\n]*\n(?:[^\n]*\n)*?exit=(\d)", open(fin1).read()) if os.path.exists(fin1) else []
     caught = [c for c, e in checks if e == "1"]
     missed = [c for c, e in checks if e == "0"]
     inconc = [c for c, e in checks if e == "2"]
@@ -86,6 +89,7 @@ for d in sorted(glob.glob(os.path.join(root, "seeded", "C*-*")) + glob.glob(os.p
         "not_flagged_by": missed,
         "inconclusive": inconc,
         "first_missed_then_strengthened": first_missed,
+        "caught_by_quick_checks_with_seed_1": [c for c, e in checks_s1 if e == "1"],
         "note": NOTES.get(name, ""),
     }
     json.dump(meta, open(meta_p, "w"), indent=1)
